@@ -13,6 +13,19 @@ thread_local! {
     static BUSY: Cell<bool> = const { Cell::new(false) };
     static ORIGIN: Cell<Option<tokio::time::Instant>> = const { Cell::new(None) };
     static CALLS: Cell<u64> = const { Cell::new(0) };
+    static DRIFT: Cell<bool> = const { Cell::new(false) };
+    static LAST: Cell<(u64, u32)> = const { Cell::new((u64::MAX, 0)) };
+    static READS: Cell<u32> = const { Cell::new(0) };
+}
+
+/// Drifting mode: within one virtual instant every further read of the clock returns one
+/// nanosecond more than the previous one (capped well below a millisecond), as a real clock
+/// does between two reads inside one poll. Off by default: oracles that judge exact window
+/// boundaries presuppose a clock that stands still within a poll.
+pub fn set_drift(on: bool) {
+    DRIFT.with(|d| d.set(on));
+    LAST.with(|l| l.set((u64::MAX, 0)));
+    READS.with(|r| r.set(0));
 }
 
 /// Arbitrary fixed base so that `Instant` arithmetic never underflows.
@@ -45,8 +58,22 @@ pub unsafe fn clock_gettime_impl(clk: libc::clockid_t, tp: *mut libc::timespec) 
         let origin = ORIGIN.with(|o| o.get());
         let r = origin.map(|o| tokio::time::Instant::now().saturating_duration_since(o));
         BUSY.with(|b| b.set(false));
-        if let Some(d) = r {
+        if let Some(mut d) = r {
             CALLS.with(|c| c.set(c.get() + 1));
+            if DRIFT.with(|x| x.get()) {
+                let key = (d.as_secs(), d.subsec_nanos());
+                let k = if LAST.with(|l| l.get()) == key {
+                    READS.with(|r| {
+                        r.set((r.get() + 1).min(900_000));
+                        r.get()
+                    })
+                } else {
+                    LAST.with(|l| l.set(key));
+                    READS.with(|r| r.set(0));
+                    0
+                };
+                d += std::time::Duration::from_nanos(k as u64);
+            }
             (*tp).tv_sec = BASE_SECS + d.as_secs() as i64;
             (*tp).tv_nsec = d.subsec_nanos() as i64;
             return 0;
